@@ -10,9 +10,17 @@ impl HasKey<Public> for V4 {
     type Key = PublicKey;
 
     fn decode(bytes: &[u8]) -> Result<PublicKey, PasetoError> {
-        crypto_sign::PublicKey::from_bytes(bytes)
-            .map(PublicKey)
-            .map_err(|_| PasetoError::InvalidKey)
+        let key = crypto_sign::PublicKey::from_bytes(bytes).map_err(|_| PasetoError::InvalidKey)?;
+        // the bytes must decode to a point on the curve (adding the identity fails otherwise)
+        const IDENTITY: [u8; 32] = {
+            let mut p = [0; 32];
+            p[0] = 1;
+            p
+        };
+        if libsodium_rs::crypto_core::ed25519::add(key.as_bytes(), &IDENTITY).is_err() {
+            return Err(PasetoError::InvalidKey);
+        }
+        Ok(PublicKey(key))
     }
     fn encode(key: &PublicKey) -> Box<[u8]> {
         key.0.as_bytes().to_vec().into_boxed_slice()
